@@ -29,7 +29,8 @@ KDF = 'self._kdf.'
 SIV_VALID = ['self.block_size == 16', 'len(self._subkey_cipher) == len(self._kdf._key)',
              '("encrypt" in self._next or "decrypt" in self._next or "update" in self._next) ==> self._mac_tag is None',
              'self._mac_tag is not None ==> len(self._mac_tag) == 16',
-             'hasattr(self, "nonce") ==> len(self.nonce) > 0']
+             'hasattr(self, "nonce") ==> len(self.nonce) > 0',
+             'spec.aead2.key_ok(len(self._subkey_cipher))']            # the cipher accepted K1 at construction, and len(K2) == len(K1)
 
 
 def s2v_class(init=False):
@@ -59,7 +60,7 @@ def add_s2v(reg, empty_vector_clause=False):
     return reg
 
 
-def registry(nxt='all', nonce=True, init=False, empty_vector_clause=False):
+def registry(nxt='all', nonce=True, init=False, empty_vector_clause=False, no_message_clause=False):
     reg = registry_with_natives()
     reg.add(s2v_class(init=init))
     add_s2v(reg, empty_vector_clause)
@@ -95,7 +96,7 @@ def registry(nxt='all', nonce=True, init=False, empty_vector_clause=False):
                      modifies=None, options={'assume_valid': False}))
     # ------------------------------------------------------------------------------------------------------------ SivMode
     f = {'block_size': 'int', '_factory': FACTORY, '_cipher_params': NO_PARAMS, '_mac_tag': 'bytes|none', '_kdf': 'obj:' + K,
-         '_subkey_cipher': 'bytes', '_next': ('const', list(NEXTS[nxt])), '_cipher?': 'obj:native.CTR'}
+         '_subkey_cipher': 'bytes', '_next': 'list(%s)' % ','.join('const:%r' % x for x in NEXTS[nxt]), '_cipher?': 'obj:native.CTR'}
     if nonce:
         f['nonce'] = 'bytes'
     reg.add(ClassContract(V, fields={} if init else f, valid=list(SIV_VALID)))
@@ -110,22 +111,31 @@ def registry(nxt='all', nonce=True, init=False, empty_vector_clause=False):
         return 'list(%s)' % ','.join('const:%r' % x for x in v)
     # update: the next component of the vector (C09: components keep their boundaries); TypeError also when the 127 components are used up
     reg.add(Contract(V + '.update', params={'component': 'buffer'},
-                     raises={'TypeError': ('iff', '"update" not in self._next or self._kdf._n_updates == 0')}, unchanged_on_raise=True,
+                     raises={'TypeError': ('iff', '"update" not in self._next or self._kdf._n_updates == 0')},
+                     # refused: as if the call had not been made (_next may be a new, equal list when the 127 components are used up)
+                     on_raise={'TypeError': ['self._next == old(self._next)', 'self._kdf._cache == old(self._kdf._cache)',
+                                             'self._kdf._last_string == old(self._kdf._last_string)', 'self._kdf._n_updates == old(self._kdf._n_updates)',
+                                             'self._mac_tag == old(self._mac_tag)']},
                      ensures={'next': 'self._next == ["update", "encrypt", "decrypt", "digest", "verify"]',
                               'd': 'self._kdf._cache == spec.aead2.s2v_step(%s, old(self._kdf._cache), old(self._kdf._last_string))' % K1,
                               'last': 'self._kdf._last_string == component', 'count': 'self._kdf._n_updates == old(self._kdf._n_updates) - 1',
                               'valid': 'valid(self)'},
-                     modifies=dict(KDF_MOD, **{'self._next': nxt_t(ALL)})))
+                     modifies=dict(KDF_MOD, **{'self._next': nxt_t(ALL)}), opaque=['spec.aead2.s2v_step', 'spec.aead2.s2v_final', 'spec.aead2.s2v_dbl']))
     # encrypt / decrypt: never permitted for SIV
     for nm, arg in (('encrypt', 'plaintext'), ('decrypt', 'ciphertext')):
-        reg.add(Contract(V + '.' + nm, params={arg: 'bytes'}, raises={'TypeError': ('iff', 'True')}, unchanged_on_raise=True, modifies=[]))
+        reg.add(Contract(V + '.' + nm, params={arg: 'bytes'}, raises={'TypeError': ('iff', '1 == 1')}, unchanged_on_raise=True, modifies=[]))
     # digest / verify on the S2V state as it is (see the NOT PROVED / finding note at the end of this file about a missing message)
     STATE_TAG = 'spec.aead2.cmac(%s, spec.aead2.s2v_final(%%sself._kdf._cache%%s, %%sself._kdf._last_string%%s))' % K1
+    dig_ens = {'next': 'self._next == ["digest"]', 'result': 'result == self._mac_tag',
+               'tag': 'self._mac_tag == (old(self._mac_tag) if old(self._mac_tag) is not None else %s)' % (STATE_TAG % ('old(', ')', 'old(', ')')),
+               'valid': 'valid(self)'}
+    if no_message_clause:
+        # C10: a permitted sequence yields the tag of the one-shot computation: digest() right after the update()s is the one-shot
+        # computation on the empty message, V = S2V(K1; AD_1..AD_n[, nonce], "")   -- FAILS on the current tree, see FINDING F2 below
+        dig_ens = {'one_shot_tag': '("update" in old(self._next)) ==> result == %s' % (TAG % 'b""')}
     reg.add(Contract(V + '.digest', params={}, raises={'TypeError': ('iff', '"digest" not in self._next')}, unchanged_on_raise=True,
-                     ensures={'next': 'self._next == ["digest"]', 'result': 'result == self._mac_tag',
-                              'tag': 'self._mac_tag == (old(self._mac_tag) if old(self._mac_tag) is not None else %s)' % (STATE_TAG % ('old(', ')', 'old(', ')')),
-                              'valid': 'valid(self)'},
-                     modifies={'self._mac_tag': 'bytes', 'self._next': nxt_t(['digest'])}, result='bytes'))
+                     ensures=dig_ens,
+                     modifies={'self._mac_tag': 'bytes', 'self._next': nxt_t(['digest'])}, result='bytes', opaque=['spec.aead2.s2v_step', 'spec.aead2.s2v_final', 'spec.aead2.s2v_dbl']))
     reg.add(Contract(V + '.verify', params={'received_mac_tag': 'buffer'},
                      raises={'TypeError': ('iff', '"verify" not in self._next'),
                              'ValueError': ('iff', '"verify" in self._next and received_mac_tag != (self._mac_tag if self._mac_tag is not None else %s)'
@@ -134,7 +144,7 @@ def registry(nxt='all', nonce=True, init=False, empty_vector_clause=False):
                      ensures={'next': 'self._next == ["verify"]', 'accepted': 'received_mac_tag == self._mac_tag',
                               'tag': 'self._mac_tag == (old(self._mac_tag) if old(self._mac_tag) is not None else %s)' % (STATE_TAG % ('old(', ')', 'old(', ')')),
                               'valid': 'valid(self)'},
-                     modifies={'self._mac_tag': 'bytes', 'self._next': nxt_t(['verify'])}))
+                     modifies={'self._mac_tag': 'bytes', 'self._next': nxt_t(['verify'])}, opaque=['spec.aead2.s2v_step', 'spec.aead2.s2v_final', 'spec.aead2.s2v_dbl']))
     # encrypt_and_digest: V = S2V(K1; AD..., [nonce], P); C = P xor CTR_K2(V & mask)
     reg.add(Contract(V + '.encrypt_and_digest', params={'plaintext': 'bytes', 'output': 'none'},
                      requires=['self._kdf._n_updates >= %d' % need],
@@ -143,7 +153,7 @@ def registry(nxt='all', nonce=True, init=False, empty_vector_clause=False):
                               'tag': 'self._mac_tag == %s' % (TAG % 'plaintext'),
                               'result': 'result == (spec.aead2.siv_crypt(%s, self._mac_tag, plaintext), self._mac_tag)' % K2,
                               'valid': 'valid(self)'},
-                     modifies=dict(KDF_MOD, **{'self._mac_tag': 'bytes', 'self._next': nxt_t(['digest'])})))
+                     modifies=dict(KDF_MOD, **{'self._mac_tag': 'bytes', 'self._next': nxt_t(['digest'])}), opaque=['spec.aead2.s2v_step', 'spec.aead2.s2v_final', 'spec.aead2.s2v_dbl']))
     # decrypt_and_verify: P = C xor CTR_K2(T & mask) for the RECEIVED tag T; accepted iff T == S2V(K1; AD..., [nonce], P)   (RFC 5297 2.7)
     P_IN = 'spec.aead2.siv_crypt(%s, mac_tag, ciphertext)' % K2
     reg.add(Contract(V + '.decrypt_and_verify', params={'ciphertext': 'bytes', 'mac_tag': 'bytes', 'output': 'none'},
@@ -153,7 +163,7 @@ def registry(nxt='all', nonce=True, init=False, empty_vector_clause=False):
                      unchanged_on_raise=['TypeError'],
                      ensures={'next': 'self._next == ["verify"]', 'result': 'result == %s' % P_IN,
                               'accepted': 'mac_tag == %s' % (TAG % 'result'), 'valid': 'valid(self)'},
-                     modifies=dict(KDF_MOD, **{'self._mac_tag': 'bytes', 'self._next': nxt_t(['verify']), 'self._cipher': 'obj:native.CTR'}), result='bytes'))
+                     modifies=dict(KDF_MOD, **{'self._mac_tag': 'bytes', 'self._next': nxt_t(['verify']), 'self._cipher': 'obj:native.CTR'}), result='bytes', opaque=['spec.aead2.s2v_step', 'spec.aead2.s2v_final', 'spec.aead2.s2v_dbl']))
     # _create_ctr_cipher: Q = V & (1^64 0 1^31 0 1^31) as the initial counter block, empty prefix
     reg.add(Contract(V + '._create_ctr_cipher', params={'v': 'bytes'}, raises={},
                      ensures={'ctr0': 'result.g_ctr0 == spec.aead2.siv_ctr0(v)', 'key': 'result.g_key == self._subkey_cipher', 'pos': 'result.g_pos == 0'},
@@ -173,5 +183,44 @@ def registry(nxt='all', nonce=True, init=False, empty_vector_clause=False):
     return reg
 
 
+def _unit(prop, uid, targets, **kw):
+    from vf.pyunit import pyvc_unit
+    return pyvc_unit(prop, uid, lambda: registry(**kw), targets)
+
+
 def units(prop, tier):
-    return []
+    us = []
+    if prop in ('C01', 'C12'):
+        # _S2V is both the SIV MAC (C01) and a public KDF building block (C12)
+        pre = 's2v.' if prop == 'C12' else 'siv.s2v.'
+        us.append(_unit(prop, pre + 'steps', [K + '._double', K + '.update', K + '.derive']))
+        us.append(_unit(prop, pre + 'init', [K + '.__init__'], init=True))
+        if prop == 'C12':
+            us.append(_unit(prop, 's2v.derive.empty_vector', [K + '.derive'], empty_vector_clause=True))         # FINDING F1
+    if prop == 'C01':
+        for nonce in (True, False):
+            tag = 'nonce' if nonce else 'det'
+            us.append(_unit(prop, 'siv.decrypt_and_verify.all.' + tag, [V + '.decrypt_and_verify'], nonce=nonce))
+            us.append(_unit(prop, 'siv.verify.all.' + tag, [V + '.verify'], nonce=nonce))
+        us.append(_unit(prop, 'siv.verify.v', [V + '.verify'], nxt='v'))
+    elif prop == 'C02':
+        us.append(_unit(prop, 'siv.init', [V + '.__init__'], init=True))
+        us.append(_unit(prop, 'siv.ctr', [V + '._create_ctr_cipher']))
+        for nonce in (True, False):
+            us.append(_unit(prop, 'siv.encrypt_and_digest.all.' + ('nonce' if nonce else 'det'), [V + '.encrypt_and_digest'], nonce=nonce))
+    elif prop == 'C09':
+        # the vector of components: each update() is one S2V step on (D, last component); buffers are copied
+        us.append(_unit(prop, 'siv.update.all', [V + '.update', K + '.update']))
+    elif prop == 'C10':
+        for nxt in NEXTS:
+            us.append(_unit(prop, 'siv.fsm.' + nxt, [V + '.' + m for m in ('update', 'encrypt', 'decrypt', 'digest', 'verify', 'encrypt_and_digest',
+                                                                        'decrypt_and_verify')], nxt=nxt))
+        us.append(_unit(prop, 'siv.digest.no_message', [V + '.digest'], no_message_clause=True))                 # FINDING F2
+    return us
+
+
+# FINDING F1 (C12, s2v.derive.empty_vector): RFC 5297 2.4 defines S2V of the empty vector as AES-CMAC(K, <one>); _S2V.derive() without any
+#   update() returns AES-CMAC(K, <zero>).  Replayed natively: _S2V.new(bytes(range(16)), AES).derive() == CMAC(K, bytes(16)).
+# FINDING F2 (C10, siv.digest.no_message): SivMode.digest()/verify() without a message derive S2V over the AD components alone (last AD component
+#   in the place of the plaintext, nonce not absorbed): update(b'hdr'); digest() != update(b'hdr'); encrypt_and_digest(b'')[1].
+#   The proved `tag` clause of digest()/verify() states what the code does (S2V of the state as it is); the one-shot clause is kept in the unit above.
